@@ -1275,8 +1275,20 @@ pub fn write_report(
     log: &dyn Log,
     groups: &[FileGroup<FileInfo>],
 ) -> io::Result<()> {
-    let now = Local::now();
+    write_report_at(config, log, groups, Local::now())
+}
 
+/// Like [`write_report`], but records the given timestamp in the report header.
+///
+/// The timestamp should be the time when scanning of the files *started*, because
+/// the deduplication commands treat any file modified after that timestamp as changed.
+/// A file modified while grouping was still in progress must not look unmodified.
+pub fn write_report_at(
+    config: &GroupConfig,
+    log: &dyn Log,
+    groups: &[FileGroup<FileInfo>],
+    now: DateTime<Local>,
+) -> io::Result<()> {
     let total_count = file_count(groups.iter());
     let total_size = total_size(groups.iter());
 
